@@ -1257,5 +1257,38 @@ class Client(Suite):
         return Info(nontrivial, labels)
 
 
-SUITES = [WsgiAsgi(), Client()]
+class ClientPair(Suite):
+    """Requests that REPEAT a singleton header (Referer, From, Max-Forwards, If-Unmodified-Since with two values and
+    differently cased names).  Real WSGI servers and ASGI differ here by design, so the minimal drivers are not
+    compared; but falcon.testing normalises both simulated stacks the same way: simulate_request on the WSGI app and on
+    the ASGI app must show the application the same request and return the same response."""
+
+    name = 'client_pair'
+    budget = {'quick': 800, 'thorough': 15000}
+
+    def strategy(self, tier):
+        def add(case, name, v1, v2, flip):
+            case = dict(case)
+            n2 = name.upper() if flip else name.lower()
+            case['headers'] = [h for h in case['headers'] if h[0].lower() != name.lower()] + [[name, v1], [n2, v2]]
+            return case
+        return st.builds(add, _requests(True), st.sampled_from(['Referer', 'From', 'Max-Forwards', 'If-Unmodified-Since']),
+                         st.sampled_from(['a', 'http://x.example/1', '3']), st.sampled_from(['b', 'http://y.example/2', '7']),
+                         st.booleans())
+
+    def run(self, case):
+        wapp, wh, aapp, ah = apps_for(case)
+        wh.reset(case)
+        try:
+            cw = via_client(wapp, wh, case, 'wsgi')
+        except ClientInconclusive:
+            return Info(False, ['client:wsgiref_validate_assertion(inconclusive)'])
+        ah.reset(case)
+        ca = via_client(aapp, ah, case, 'asgi')
+        compare_digests('wsgi-client', cw, 'asgi-client', ca, case)
+        compare_triples('wsgi-client', cw, 'asgi-client', ca, case)
+        return Info(True, ['repeated_singleton_header'])
+
+
+SUITES = [WsgiAsgi(), Client(), ClientPair()]
 KNOWN = {}
